@@ -12,6 +12,16 @@
                                   Model: fault at k, then HRestart mode — a fault at step k leaves
                                   exactly the crash image (Props/C08.v, C08_crash_image_is_fault_state)
           (1 mode)                drop the appender, build a new one (append flag = mode)
+          (0 record (3 L))        append under RLIMIT_FSIZE = L (exploration family: an OS write
+                                  error half-way through the gzip output is OUTSIDE this model; the
+                                  check does not compare the model's answer for such histories, the
+                                  op is decoded as a plain append only so that the case evaluates)
+          (4 kind j) / (5)        the directory of slot base+j cannot be created (kind 0: a dangling
+                                  symlink, kind 1: a regular file sits at the directory's name) / undone.
+                                  rotate() calls create_dir_all(parent(dst)) right after the hook call
+                                  of the step whose destination is slot base+j, before touching anything:
+                                  that step fails = fault `Some (count-1-j)`; for j = 0 the directory of
+                                  dst_0 is created before the first hook call: Err with no hook call
           (2)                     an operator error: a non-empty directory appears at the top
                                   archive name (name (b+c-1), holding a file "keep")
           (3)                     the directory is removed again
@@ -29,20 +39,33 @@ Local Open Scope N_scope.
 Inductive cop :=
 | CAppend (r : bytes) (fault : option nat) (restart : option bool)
 | CRestart (m : bool)
-| CObst (on : bool).
+| CObst (on : bool)
+| CDirObst (kind : N) (j : nat)
+| CDirObstOff.
 
 Definition dec_cop (v : vl) : option cop :=
   match v with
   | VL [VN 0; VS r; VL [VN 0]] => Some (CAppend r None None)
   | VL [VN 0; VS r; VL [VN 1; VN k]] => Some (CAppend r (Some (N.to_nat k)) None)
   | VL [VN 0; VS r; VL [VN 2; VN k; VN m]] => Some (CAppend r (Some (N.to_nat k)) (Some (negb (m =? 0))))
+  | VL [VN 0; VS r; VL [VN 3; VN _]] => Some (CAppend r None None)
   | VL [VN 1; VN m] => Some (CRestart (negb (m =? 0)))
+  | VL [VN 4; VN kind; VN j] => Some (CDirObst kind (N.to_nat j))
+  | VL [VN 5] => Some CDirObstOff
   | VL [VN 2] => Some (CObst true)
   | VL [VN 3] => Some (CObst false)
   | _ => None
   end.
 
 Definition keep_path (top : path) : path := top ++ [47; 107; 101; 101; 112].   (* "/keep" *)
+
+(* Path::parent for a relative path with at least one '/' *)
+Fixpoint drop_to_slash (l : list N) : list N :=
+  match l with
+  | [] => []
+  | x :: t => if x =? 47 then t else drop_to_slash t
+  end.
+Definition parent_path (p : path) : path := rev (drop_to_slash (rev p)).
 
 Section Run.
   Variable name : N -> path.
@@ -63,12 +86,27 @@ Section Run.
     if c_count cf =? 1 then true
     else match lookup (name (c_base cf + (c_count cf - 2))) f with Some _ => true | None => false end.
 
-  Fixpoint run_c08 (ops : list cop) (obst : bool) (s : ast) : option (list vl) :=
+  Definition slot_dir (j : nat) : path := parent_path (name (c_base cf + N.of_nat j)).
+
+  (* dobst = Some (kind, j): the directory of slot base+j cannot be created *)
+  Fixpoint run_c08 (ops : list cop) (obst : bool) (dobst : option (N * nat)) (s : ast)
+    : option (list vl) :=
     match ops with
     | [] => Some []
     | CAppend r fault restart :: rest =>
       let fault0 := if nohook then None else fault in
-      let eff := if obst && obstructed (afs s) then Some O else fault0 in
+      let eff1 := if obst && obstructed (afs s) then Some O else fault0 in
+      let eff := match dobst with
+                 | Some (_, j) =>
+                   let kd := (N.to_nat (c_count cf) - 1 - j)%nat in
+                   match j, eff1 with
+                   | O, _ => Some O
+                   | _, Some k => Some (Nat.min k kd)
+                   | _, None => Some kd
+                   end
+                 | None => eff1
+                 end in
+      let hide := match dobst with Some (_, O) => true | _ => false end in
       match step_hist name cm file cf (HAppend r (fun len => limit <? len) eff) s with
       | (s1, a, _, imgs) =>
         match a with
@@ -78,17 +116,28 @@ Section Run.
                     | Some m => build file m (afs s1)
                     | None => s1
                     end in
-          option_map (cons (entry a imgs (afs s2))) (run_c08 rest obst s2)
+          option_map (cons (entry a (if hide then [] else imgs) (afs s2))) (run_c08 rest obst dobst s2)
         end
       end
     | CRestart m :: rest =>
       let s1 := build file m (afs s) in
-      option_map (cons (entry AOk [] (afs s1))) (run_c08 rest obst s1)
+      option_map (cons (entry AOk [] (afs s1))) (run_c08 rest obst dobst s1)
     | CObst on :: rest =>
       let f1 := if on then write (keep_path top_name) [111; 98; 115; 116] (afs s)
                 else remove (keep_path top_name) (afs s) in
       let s1 := {| afs := f1; wopen := wopen s |} in
-      option_map (cons (entry AOk [] f1)) (run_c08 rest on s1)
+      option_map (cons (entry AOk [] f1)) (run_c08 rest on dobst s1)
+    | CDirObst kind j :: rest =>
+      let f1 := if kind =? 0 then afs s else write (slot_dir j) [111; 98; 115; 116] (afs s) in
+      let s1 := {| afs := f1; wopen := wopen s |} in
+      option_map (cons (entry AOk [] f1)) (run_c08 rest obst (Some (kind, j)) s1)
+    | CDirObstOff :: rest =>
+      let f1 := match dobst with
+                | Some (kind, j) => if kind =? 0 then afs s else remove (slot_dir j) (afs s)
+                | None => afs s
+                end in
+      let s1 := {| afs := f1; wopen := wopen s |} in
+      option_map (cons (entry AOk [] f1)) (run_c08 rest obst None s1)
     end.
 End Run.
 
@@ -102,7 +151,7 @@ Definition c08_run (v : vl) : vl :=
       let cf := {| c_base := b; c_count := c; c_pre := negb (pre =? 0) |} in
       let nh := negb (nohook =? 0) in
       let s0 := build file (negb (mode0 =? 0)) (mkfs init) in
-      match run_c08 name cm file cf limit nh ops false s0 with
+      match run_c08 name cm file cf limit nh ops false None s0 with
       | Some l => VL (entry nh AOk [] (afs s0) :: l)
       | None => vpanic
       end
